@@ -134,9 +134,19 @@ LiftExpect(G) ==
       IN [w |-> <<G.rules[r].w, RMul(G.rules[r].w, <<nt, 1>>)>>, h |-> G.rules[r].h, b |-> b]]]
 ExpLenOK(e) == REq(TreeSum("Expect", LiftExpect(e.G))[e.G.S][2], e.res)
 
+(* LM.p_next_seq(ctx, ext) = product of the conditionals = PW(ctx.ext) / PW(ctx) *)
+PNextSeqOK(e) ==
+  LET pw == PrefixWeight(e.sr, e.G, e.ctx) IN
+  IF pw = Zero(e.sr) THEN WEq(e.sr, Zero(e.sr), e.res)
+  ELSE WEq(e.sr, RDiv(PrefixWeight(e.sr, e.G, e.ctx \o e.ext), pw), e.res)
+(* map_values(f, R): same rules, weights mapped; here f is the support map into Bool *)
+SupportOf(G) == [S |-> G.S, V |-> G.V, rules |-> [r \in DOMAIN G.rules |-> [w |-> 1, h |-> G.rules[r].h, b |-> G.rules[r].b]]]
+MapBoolOK(e) == \A s \in Strs(SetOf(e.sigma), e.L) :       \* (no shipped semiring has zero divisors or cancellation)
+                   Weight("Bool", e.out, s) = Weight("Bool", SupportOf(e.in), s)
+
 InDomainIn(e) ==
   CASE e.op \in {"parse"} -> InsideExact(e.sr, e.G)
-    [] e.op \in {"prefix", "treesum", "treesum1", "pnext", "ntw", "lmcall", "explen"} ->
+    [] e.op \in {"prefix", "treesum", "treesum1", "pnext", "ntw", "lmcall", "explen", "pnextseq"} ->
           InsideExact(e.sr, e.G) /\ TreeSumExact(e.sr, e.G)
     [] e.op \in {"transform", "derivative", "addeos"} -> InsideExact(e.sr, e.in)
     [] e.op \in {"prefixgrammar", "normalize"} -> InsideExact(e.sr, e.in) /\ TreeSumExact(e.sr, e.in)
@@ -171,6 +181,8 @@ Failed(e) ==
     [] e.op = "ntw" -> IF NtwOK(e) THEN {} ELSE {"nexttoken"}
     [] e.op = "lmcall" -> IF LmCallOK(e) THEN {} ELSE {"chainrule"}
     [] e.op = "explen" -> IF ExpLenOK(e) THEN {} ELSE {"explen"}
+    [] e.op = "pnextseq" -> IF PNextSeqOK(e) THEN {} ELSE {"chainrule"}
+    [] e.op = "mapbool" -> IF MapBoolOK(e) THEN {} ELSE {"support"}
 
 VARIABLES sh, l
 vars == <<sh, l>>
